@@ -12,6 +12,7 @@
 #include <unistd.h>
 #include <ascon/hash.h>
 #include <ascon/xof.h>
+#include <ascon/kdf.h>
 #include <ascon/prf.h>
 #include <ascon/hmac.h>
 #include <ascon/kmac.h>
@@ -226,6 +227,18 @@ int main(int argc, char **argv)
             else { ascon_kmac(key, 20, in, L, in, 5, o1, 32); ascon_kmac_state_t st; ascon_kmac_init(&st, key, 20, in, 5, 32); for (size_t i = 0; i < L; i += (size_t)1 << 30) ascon_kmac_absorb(&st, in + i, L - i < ((size_t)1 << 30) ? L - i : (size_t)1 << 30); ascon_kmac_squeeze(&st, o2, 32); }
         }
         if (memcmp(o1, o2, 32)) hx_fail(kb, "single call over %zu bytes differs from the same data fed in 1 GiB calls", L);
+    } else if (!strcmp(what, "kdf-out")) {
+        /* one-shot ASCON-KDF / KDFA of L bytes (declared length L: at 2^29 and above the documented meaning is arbitrary length) against the incremental interface in three
+         * calls and against the library's own customised XOF named "KDF" over the key (checked against the specification in C03) */
+        uint8_t *o1 = malloc(L + 64), *o2 = malloc(L + 64); memset(o1 + L, 0xC5, 64); size_t k1 = L / 3, k2 = L - L / 5;
+        if (arg) { ascon_kdfa(o1, L, key, 20, in, 7); ascon_kdfa_state_t st; ascon_kdfa_init(&st, key, 20, in, 7, L); ascon_kdfa_squeeze(&st, o2, k1); ascon_kdfa_squeeze(&st, o2 + k1, k2 - k1); ascon_kdfa_squeeze(&st, o2 + k2, L - k2); ascon_kdfa_free(&st); }
+        else { ascon_kdf(o1, L, key, 20, in, 7); ascon_kdf_state_t st; ascon_kdf_init(&st, key, 20, in, 7, L); ascon_kdf_squeeze(&st, o2, k1); ascon_kdf_squeeze(&st, o2 + k1, k2 - k1); ascon_kdf_squeeze(&st, o2 + k2, L - k2); ascon_kdf_free(&st); }
+        if (memcmp(o1, o2, L)) { size_t i = 0; while (o1[i] == o2[i]) i++; hx_fail(kb, "one-shot output of %zu bytes differs from init + squeeze with the same declared length at byte %zu", L, i); }
+        if (arg) { ascon_xofa_state_t x; ascon_xofa_init_custom(&x, "KDF", in, 7, L); ascon_xofa_absorb(&x, key, 20); ascon_xofa_squeeze(&x, o2, L); ascon_xofa_free(&x); }
+        else { ascon_xof_state_t x; ascon_xof_init_custom(&x, "KDF", in, 7, L); ascon_xof_absorb(&x, key, 20); ascon_xof_squeeze(&x, o2, L); ascon_xof_free(&x); }
+        if (memcmp(o1, o2, L)) { size_t i = 0; while (o1[i] == o2[i]) i++; hx_fail(kb, "one-shot output of %zu bytes differs from the customised XOF named KDF at byte %zu", L, i); }
+        for (int i = 0; i < 64; i++) if (o1[L + i] != 0xC5) { hx_fail(kb, "wrote beyond the output"); break; }
+        free(o1); free(o2);
     } else { fprintf(stderr, "unknown %s\n", what); return 2; }
     hx_stat("evaluations", 1); hx_stat("nontrivial", 1); hx_stat("huge_length_calls", 1);
     hx_sample("%s with a length of %zu bytes (2^32 + 40) against the streaming fast reference", argv[1], L);
